@@ -43,12 +43,12 @@ func (o *Obligation) Key() string { return o.Rule + "|" + o.Construct }
 
 // Ctx is the context of one property run on one build variant.
 type Ctx struct {
-	Prop    string
-	Tier    string
-	P       *Prog
-	Obs     []*Obligation
-	expect  map[string]int
-	Variant string
+	Prop     string
+	Tier     string
+	P        *Prog
+	Obs      []*Obligation
+	expect   map[string]int
+	Variant  string
 	notArmed []string
 }
 
@@ -196,16 +196,16 @@ type evidence struct {
 }
 
 type runResult struct {
-	Prop       string
-	Tier       string
-	Obs        []*Obligation
-	Variants   []string
-	Analysed   map[string]any
-	NotArmed   []string
-	Extra      map[string]any
-	Start      time.Time
-	Explain    string
-	Assumes    []string
+	Prop     string
+	Tier     string
+	Obs      []*Obligation
+	Variants []string
+	Analysed map[string]any
+	NotArmed []string
+	Extra    map[string]any
+	Start    time.Time
+	Explain  string
+	Assumes  []string
 }
 
 // conclude prints verdict lines, writes evidence and replay files, and
